@@ -190,6 +190,9 @@ def peer_caps(rng, cfg, full=False):
         caps.append(rp.cap_mp(*rng.pick([(2, 1), (2, 2), (1, 2), (2, 128), (25, 70), (1, 4), (16388, 71)])))
     if rng.chance(0.2):
         caps.append(rp.cap_gr(120))
+    if rng.chance(0.1):
+        # a capability yabgp has no branch for, with a value that is not text (e.g. ORF, RFC 5291)
+        caps.append((rng.pick([3, 66, 67, 71, 73]), bytes(rng.pick([0x00, 0x01, 0x80, 0xff, 0xc3]) for _ in range(rng.randrange(0, 8)))))
     if rng.chance(0.2):
         caps.append(rp.cap_err())
     return caps
@@ -240,7 +243,14 @@ def gen_open(rng, cfg, variant="valid", hold=None):
 PREFIX_POOL = ["10.1.0.0/16", "10.2.3.0/24", "192.168.0.0/17", "172.16.5.4/32", "0.0.0.0/0", "100.64.0.0/10"]
 
 
+KNOWN_FAMILIES = [(2, 1), (1, 128), (2, 128), (1, 133), (25, 70), (16388, 71), (1, 4), (1, 73)]
+
+
 def gen_update(rng, cfg, as4):
+    if rng.chance(0.06):
+        # End-of-RIB marker of a multiprotocol family yabgp knows (RFC 4724): an UPDATE whose only content is an
+        # MP_UNREACH_NLRI without routes
+        return rp.encode_update(raw_attrs=rp.mp_unreach(*rng.pick(KNOWN_FAMILIES), b""))
     nl = [rng.pick(PREFIX_POOL) for _ in range(rng.randrange(0, 3))]
     wd = [rng.pick(PREFIX_POOL) for _ in range(rng.randrange(0, 2))] if rng.chance(0.4) else []
     attrs = {}
